@@ -79,7 +79,7 @@ def r1_extract(ctx):
                 if _is_A(t):
                     effA, nA = _effect(x), nA + 1
                     for test, pol in guards_of(x, fn):
-                        if A_TXT in unparse(test) and pol:
+                        if "self._array[" in unparse(test) and pol:
                             guard = test
                 if _is_L(t):
                     effL, nL = _effect(x), nL + 1
@@ -143,7 +143,14 @@ def _helper_raises(h, L):
 class TypeState:
     """state: frozenset of (L, locals) with locals a tuple of (name, const) for tracked constant locals."""
 
-    def __init__(self, fn, summ, entry_L, tracked=("lock",), base_exceptions=False):
+    def __init__(self, fn, summ, entry_L, tracked=None, base_exceptions=False):
+        if tracked is None:
+            # locals that are only ever bound to constants (state flags such as `lock = 'write'`)
+            binds = {}
+            for x in walk_shallow(fn):
+                if isinstance(x, ast.Assign) and len(x.targets) == 1 and isinstance(x.targets[0], ast.Name):
+                    binds.setdefault(x.targets[0].id, []).append(isinstance(x.value, ast.Constant))
+            tracked = tuple(sorted(n for n, v in binds.items() if all(v)))
         self.fn, self.summ, self.tracked = fn, summ, tracked
         self.cfg = CFG(fn, base_exceptions=base_exceptions)
         init = frozenset([(entry_L, tuple((t, "?") for t in tracked))])
@@ -332,7 +339,7 @@ def r3_guarded_by(ctx):
                     ok = bool(withs)
                     if ok:
                         for test, pol in guards_of(x, fn):
-                            if A_TXT in unparse(test):
+                            if "self._array[" in unparse(test):
                                 ifn = next(a for a in ancestors(x) if isinstance(a, ast.If) and a.test is test)
                                 ok = ok and withs[0] in list(ancestors(ifn))
                     ctx.ob("C19.R3", CCH, f"ConcurrentCacher.{mname}", x, "the update and its guard are atomic under self._lock", ok)
@@ -355,7 +362,8 @@ def r4_invariant(ctx, summ):
         g = summ[h]["guard"]
         if g is None:
             return True
-        v = FlagEval({A_TXT: A}, opaque=lambda e: TOP).test(g)
+        env = {unparse(x): A for x in ast.walk(g) if isinstance(x, ast.Subscript) and unparse(x.value) == "self._array"}
+        v = FlagEval(env, opaque=lambda e: TOP).test(g)
         return bool(v)
 
     trans = {
@@ -383,8 +391,11 @@ def r4_invariant(ctx, summ):
     ctx.configurations += n
     g_r = summ["_acquire_read_lock"]["guard"]
     g_w = summ["_acquire_write_lock"]["guard"]
-    ctx.ob("C19.R4", CCH, "ConcurrentCacher._acquire_read_lock", g_r, "readers enter only while no writer holds the key (A >= 0)", g_r is not None and unparse(g_r) == f"{A_TXT} >= 0")
-    ctx.ob("C19.R4", CCH, "ConcurrentCacher._acquire_write_lock", g_w, "a writer enters only while nobody holds the key (A == 0)", g_w is not None and unparse(g_w) == f"{A_TXT} == 0")
+    def shape(g, op, val):
+        return g is not None and isinstance(g, ast.Compare) and isinstance(g.left, ast.Subscript) and unparse(g.left.value) == "self._array" and isinstance(g.ops[0], op) \
+            and unparse(g.comparators[0]) == val
+    ctx.ob("C19.R4", CCH, "ConcurrentCacher._acquire_read_lock", g_r, "readers enter only while no writer holds the key (A >= 0)", shape(g_r, ast.GtE, "0"), stmt="reader guard A >= 0")
+    ctx.ob("C19.R4", CCH, "ConcurrentCacher._acquire_write_lock", g_w, "a writer enters only while nobody holds the key (A == 0)", shape(g_w, ast.Eq, "0"), stmt="writer guard A == 0")
 
 
 # ------------------------------------------------------------------------------------------ R6
@@ -417,7 +428,8 @@ def r6_failed_population(ctx):
     mf = ctx.fn(CCH, "MemoryCacher.get_set")
     store = [x for x in walk_shallow(mf) if isinstance(x, ast.Assign) and unparse(x.targets[0]) == "self._cache[key]"]
     calls = [c for c in walk_shallow(mf) if isinstance(c, ast.Call) and unparse(c.func) in ("getter", "list")]
-    ok = len(store) == 1 and unparse(store[0].value) == "value" and all(c.lineno < store[0].lineno for c in calls) and bool(calls)
+    ok = len(store) == 1 and isinstance(store[0].value, ast.Name) and any(has_call(v, "getter") for v in assigned_value(mf, store[0].value.id)) \
+        and all(c.lineno < store[0].lineno for c in calls) and bool(calls)
     ctx.ob("C19.R6", CCH, "MemoryCacher.get_set", store[0] if store else mf, "the memory cache stores the value only after getter (and materialisation) succeeded", ok)
 
 
